@@ -781,7 +781,10 @@ class Verifier:
             for sname, ret in stubs.items():
                 if isinstance(ret, (list, tuple)) and ret and ret[0] == 'native-real':
                     ret = ret[1]
-                hooks[self.resolve_target(sname)] = self.make_stub(st, sname, ret)
+                tfn = self.resolve_target(sname)
+                if isinstance(tfn, PropertyModel):
+                    tfn = tfn.fget
+                hooks[tfn] = self.make_stub(st, sname, ret)
             for ms in self.contracts:
                 if ms.opts.get('modular') and ms.target:
                     fm = self.resolve_target(ms.target)
